@@ -64,14 +64,20 @@ func replaceSuffixes(inputLines *bytes.Buffer, suffixReplacements map[string]str
 	scanner := bufio.NewScanner(inputLines)
 	scanner.Split(bufio.ScanLines)
 	skipRegex := regexp.MustCompile(`^(?:##!|\s*$)`)
+	// Apply the replacements in a fixed order, map iteration order is random
+	matches := make([]string, 0, len(suffixReplacements))
+	for match := range suffixReplacements {
+		matches = append(matches, match)
+	}
+	sort.Strings(matches)
 	for scanner.Scan() {
 		entry := scanner.Text()
 		if !skipRegex.MatchString(entry) {
-			for match, replacement := range suffixReplacements {
+			for _, match := range matches {
 				var found bool
 				entry, found = strings.CutSuffix(entry, match)
-				if found && replacement != `""` {
-					entry += replacement
+				if found && suffixReplacements[match] != `""` {
+					entry += suffixReplacements[match]
 				}
 			}
 		}
